@@ -371,6 +371,40 @@ def make_recorder():
     return Recorder()
 
 
+def make_async_recorder():
+    """The same recorder as an AsyncEventProcessor whose handler really suspends."""
+    from hypergraph.events.processor import AsyncEventProcessor
+    base = make_recorder()
+
+    class ARecorder(AsyncEventProcessor):
+        def __init__(self):
+            self.inner = base
+
+        @property
+        def events(self):
+            return self.inner.events
+
+        @property
+        def shutdowns(self):
+            return self.inner.shutdowns
+
+        async def on_event_async(self, ev):
+            await asyncio.sleep(0)
+            self.inner.on_event(ev)
+
+        async def shutdown_async(self):
+            await asyncio.sleep(0)
+            self.inner.shutdown()
+
+        def on_event(self, ev):
+            self.inner.on_event(ev)
+
+        def shutdown(self):
+            self.inner.shutdown()
+
+    return ARecorder()
+
+
 def _canon_decision(v):
     import hypergraph as hg
 
@@ -482,7 +516,7 @@ def run_real(g, run, rank=None):
     obs = {}
     rec = None
     if run.get("events"):
-        rec = make_recorder()
+        rec = make_async_recorder() if (run.get("events") == "async" and run.get("runner") == "async") else make_recorder()
         kw["event_processors"] = [rec]
     with warnings.catch_warnings(record=True) as wlist:
         warnings.simplefilter("always")
